@@ -12,9 +12,17 @@ fn docs_yaml(docs: &Value) -> String {
     let mut o = String::new();
     for d in docs.as_array().cloned().unwrap_or_default() {
         o.push_str("---\n");
-        if d.is_string() {
-            // a document that does not deserialise as a rule
-            o.push_str("name: [1, 2]\n");
+        if let Some(kind) = d.as_str() {
+            // a document that does not deserialise as a rule: wrong shape, or nothing at all between two separators
+            o.push_str(match kind {
+                "empty" => "",
+                "null" => "~\n",
+                "nulltext" => "null\n",
+                "comment" => "# nothing but a comment\n",
+                "text" => "just some text\n",
+                "seq" => "- name: x\n",
+                _ => "name: [1, 2]\n",
+            });
         } else {
             o.push_str(&rule_yaml(&d));
         }
@@ -113,6 +121,19 @@ pub fn extra_alphabet() -> Vec<Value> {
         json!({"k": "tpl", "doc": [["t", "9"], ["u", "2"], ["v", "3"]]}),                                              // redefines `t` (if defined) next to new names: rejected as a whole
         json!({"k": "load", "docs": [rule("UV", &[("$a", ".x == '{{u}}{{v}}{{t}}'")], Some("$a"))]}),                  // shows which of u, v, t are defined
         json!({"k": "load", "docs": [rule("A2", &[("$a", ".x == '{{t}}'")], Some("$a"))]}),                             // the same match string as rule A, another rule
+        // documents with nothing in them, in the middle, at the end, alone: each is a document, none is a rule
+        json!({"k": "load", "docs": [rule("C3", &[("$a", ".x == '1'")], None), "empty", rule("E3", &[("$a", ".x == '1'")], None)]}),
+        json!({"k": "load", "docs": [rule("C4", &[("$a", ".x == '1'")], None), "null", rule("E4", &[("$a", ".x == '1'")], None)]}),
+        json!({"k": "load", "docs": [rule("C5", &[("$a", ".x == '1'")], None), "comment", rule("E5", &[("$a", ".x == '1'")], None)]}),
+        json!({"k": "load", "docs": [rule("C6", &[("$a", ".x == '1'")], None), "nulltext"]}),
+        json!({"k": "load", "docs": ["empty"]}),
+        json!({"k": "load", "docs": ["text", rule("E7", &[("$a", ".x == '1'")], None)]}),
+        json!({"k": "load", "docs": [rule("C8", &[("$a", ".x == '1'")], None), "seq"]}),
+        // a malformed ATT&CK id is malformed whatever the type of the rule carrying it
+        json!({"k": "load", "docs": [{"name": "X1", "type": "filter", "meta": {"attack": ["T12x"]}, "matches": [["$a", ".x == '1'"]], "condition": "$a"}]}),
+        json!({"k": "load", "docs": [{"name": "X2", "type": "dependency", "meta": {"attack": ["1234"]}, "matches": [["$a", ".x == '1'"]], "condition": "$a"}]}),
+        json!({"k": "load", "docs": [{"name": "X3", "type": "detection", "meta": {"attack": ["T+1"]}, "matches": [["$a", ".x == '1'"]], "condition": "$a"}]}),
+        json!({"k": "load", "docs": [{"name": "X4", "type": "filter", "meta": {"attack": ["t1234.001"], "tags": ["x"]}, "matches": [["$a", ".x == '1'"]], "condition": "$a"}]}),
         json!({"k": "load", "docs": [{"name": "V", "meta": {"attack": ["T4294967296", "T1059.99999999999999999999"]}, "matches": [["$a", ".x == '1'"]]}]}), // id numbers beyond u32/u64
     ]
 }
